@@ -66,7 +66,7 @@ static const struct { const char *pfx; enum kind k; } KTAB[] = {
     { "pqput", K_PQPUT }, { "pqget", K_PQGET }, { "pqcancel", K_PQCANCEL }, { "pqreprio", K_PQREPRIO },
     { "cwait", K_CWAIT }, { "cwaitb", K_CWAITB }, { "csig", K_CSIG }, { "setx", K_SETX }, { "ccancel", K_CCANCEL },
     { "cremove", K_CREMOVE }, { "csubb", K_CSUBB }, { "cunsubb", K_CUNSUBB }, { "csub", K_CSUB }, { "cunsub", K_CUNSUB }, { "evsched", K_EVSCHED }, { "evcancel", K_EVCANCEL },
-    { "recon", K_RECON }, { "recoff", K_RECOFF }, { "restop", K_RESTOP }, { "start", K_START }, { "nop", K_NOP },
+    { "recon", K_RECON }, { "recoff", K_RECOFF }, { "restop", K_RESTOP }, { "rerec", K_REREC }, { "start", K_START }, { "nop", K_NOP },
     { NULL, K_NOP }
 };
 
@@ -443,6 +443,7 @@ static bool enabled(int p, const struct opdef *od)
     case K_RECOFF:
         return D.rec_state == 1;
     case K_RESTOP: /* a second stop, recording being off already: changes nothing */
+    case K_REREC:  /* recording switched on again after a stop: a second window in the same history */
         return D.rec_state == 2;
     case K_START:
         return q != p && q < D.P && D.inited[q]
@@ -931,12 +932,23 @@ static int64_t do_op(int p, const struct opdef *od)
     }
     case K_EVCANCEL:
         c->in = D.envev[q];
-        ret = cmb_event_cancel(D.envev[q]);
+        if (od->b == 16) {
+            /* 'p': the same cancellation asked for by pattern (the event's action and object name it uniquely) */
+            const uint64_t cnt = cmb_event_pattern_cancel(env_action, CMB_ANY_SUBJECT, (void *)(uintptr_t)(q + 1));
+            if (cnt != 1) {
+                VFAIL("c01:pattern-cancel-count", "pattern cancel of the one pending event with object %d cancelled %" PRIu64, q + 1, cnt);
+            }
+            ret = (cnt == 1);
+        }
+        else {
+            ret = cmb_event_cancel(D.envev[q]);
+        }
         break;
     case K_RECON:
+    case K_REREC:
     case K_RESTOP:
     case K_RECOFF: {
-        const bool on = od->kind == K_RECON;
+        const bool on = od->kind == K_RECON || od->kind == K_REREC;
         D.rec_state = on ? 1 : 2;
         for (int r = 0; r < D.nres; r++) {
             if (on) cmb_resource_start_recording(&D.res[r]); else cmb_resource_stop_recording(&D.res[r]);
